@@ -2,6 +2,7 @@ import RgVerif.Model.Sx
 import RgVerif.Model.Walk
 import RgVerif.Model.WalkEvents
 import RgVerif.Spec.Reach
+import RgVerif.Spec.ReachDenied
 /-
 Driver of C06.
 
@@ -47,7 +48,16 @@ def parseCfg (xs : List Sx) : Option Cfg := do
     | [.atom "-"] => some none
     | ns => do
       let ns ← ns.mapM Sx.nat?
-      pure (some fun p _ => !(ns.contains (p.getLast?.getD 0)))
+      -- (fkind a|d|f): the harness's predicate rejects the listed names among all entries / directories
+      -- only / non-directories only
+      let kindOk : Bool → Bool ←
+        match Sx.field1 xs "fkind" with
+        | some (.atom "d") => some (fun isDir => isDir)
+        | some (.atom "f") => some (fun isDir => !isDir)
+        | some (.atom "a") => some (fun _ => true)
+        | none => some (fun _ => true)
+        | _ => none
+      pure (some fun p isDir => !(kindOk isDir && ns.contains (p.getLast?.getD 0)))
   pure { maxDepth := depth, maxFilesize := size, followLinks := follow, sameFs := samefs,
          -- ignore files: innermost directory first; within a file the last matching pattern decides;
          -- pattern code 2·n = name n, 2·n+1 = `!`name n (whitelist), n = 0 stands for `*`
@@ -92,6 +102,23 @@ def handle (cmd : String) (args : List Sx) : String :=
       | "guard" => if hazardFree cfg forest fuel roots then "1" else "0"
       | _ => "bad-op"
     | _, _, _ => "bad-op"
+  | "c06.denied", [.atom which, .list (.atom "cfg" :: cfg), .list (.atom "denied" :: ds),
+                   .list (.atom "forest" :: fs), .list (.atom "roots" :: rs)] =>
+    -- EACCES error visits (outside the property): `par` / `ser` rule of Spec/ReachDenied.lean
+    match parseCfg cfg, ds.mapM Sx.nat?, fs.mapM parseNode, rs.mapM parseNode with
+    | some cfg, some ds, some forest, some roots =>
+      let fuel := (dirInosL forest).length + 1
+      let atLimit? : Option Bool := match which with
+        | "par" => some true
+        | "ser" => some false
+        | _ => none
+      match atLimit? with
+      | some atLimit =>
+        let ps := deniedVisits cfg forest (fun i => ds.contains i) atLimit fuel roots
+        let ss := sortStrs (ps.map fun p => "D:" ++ pathStr p)
+        if ss.isEmpty then "-" else " ".intercalate ss
+      | none => "bad-op"
+    | _, _, _, _ => "bad-op"
   | _, _ => "bad-op"
 
 end RgVerif.Driver.C06
